@@ -11,7 +11,10 @@ for d in sorted(glob.glob(os.path.join(here, "seeded", "*"))):
     n.setdefault(rnd, [0, 0])
     n[rnd][0] += 1
     n[rnd][1] += int(bool(first))
-    rows.append("| %s | %s | %s | %s |" % (os.path.basename(d), ", ".join(m["checks"]), "yes" if first else "no - check strengthened, now caught",
+    verdict = "yes" if first else "no - check strengthened, now caught"
+    if m.get("neutralised_by"):
+        verdict = ("yes" if first else "no - check strengthened, then caught") + "; since made harmless by a repair of /repo (%s), check silent as expected" % m["neutralised_by"].split(" ")[1]
+    rows.append("| %s | %s | %s | %s |" % (os.path.basename(d), ", ".join(m["checks"]), verdict,
                                         m["needs_to_manifest"].replace("|", "\\|")))
 p = os.path.join(here, "DESIGN.md")
 s = open(p).read()
